@@ -140,6 +140,20 @@ type restart struct{}
 
 var debugSched = os.Getenv("VERIF_DEBUG_SCHED") != ""
 
+// SetW seeds the persistent shared-object set (W cache); W returns a copy of it (deduplicated).
+func (e *Explorer) SetW(w []uint64) { e.w = append([]uint64(nil), w...) }
+func (e *Explorer) W() []uint64 {
+	seen := map[uint64]bool{}
+	var out []uint64
+	for _, x := range e.w {
+		if !seen[x] {
+			seen[x] = true
+			out = append(out, x)
+		}
+	}
+	return out
+}
+
 func (e *Explorer) Explore() {
 	start := time.Now()
 	e.Goals = map[string]bool{}
